@@ -256,6 +256,8 @@ func (r *reader) SetPosition(line int, pos Segment) {
 }
 
 func (r *reader) SetPadding(v int) {
+	r.lineOffset = -1
+	r.peekedLine = nil
 	r.pos.Padding = v
 }
 
